@@ -156,6 +156,11 @@ func runWorldA(rc *RunCtx, prop string) *RunResult {
 	if T.Draw(3, "cfg.twoversions") == 0 {
 		genesis = append(genesis, w.now+uint64(1+T.Draw(20, "cfg.genesis2")))
 		deltas = append(deltas, uint64(3+T.Draw(40, "cfg.timedelta2")))
+
+		if T.Draw(2, "cfg.threeversions") == 0 {
+			genesis = append(genesis, genesis[1]+uint64(1+T.Draw(20, "cfg.genesis3")))
+			deltas = append(deltas, uint64(3+T.Draw(40, "cfg.timedelta3")))
+		}
 	}
 
 	var vs, vsAlt []*simenv.Version
@@ -334,10 +339,14 @@ func (w *aWorld) build(p *opPlan) ([]byte, *refmodel.Op) {
 
 	m.NextUpdate, m.NextRecovery = nu, nr
 
-	origin := ""
+	var origin interface{}
+
 	if p.typ == operation.TypeCreate || p.typ == operation.TypeRecover {
-		origin = "origin-" + w.nextMark()
-		m.Origin = origin
+		origin = originValue(w.mark)
+		w.nextMark()
+
+		ob, _ := json.Marshal(origin)
+		m.Origin = string(ob)
 	}
 
 	patches, err := workload.ToPatches(p.patches)
@@ -360,7 +369,7 @@ func (w *aWorld) build(p *opPlan) ([]byte, *refmodel.Op) {
 		// honest requests come from the repository's client library
 		spec := &workload.OpSpec{Type: p.typ, Suffix: w.suffix, Hash: w.hash, SignKey: p.key, NextUpdate: p.nextUpd, NextRecovery: p.nextRec,
 			Patches: patches, From: p.from, Until: p.until}
-		if origin != "" {
+		if origin != nil {
 			spec.AnchorOrigin = origin
 		}
 
@@ -371,7 +380,7 @@ func (w *aWorld) build(p *opPlan) ([]byte, *refmodel.Op) {
 	} else {
 		raw := &workload.RawSpec{Type: p.typ, Suffix: w.suffix, Hash: w.hash, RevealKey: p.key, SignWith: p.signWith, RevealOf: p.revealOf,
 			NextUpdateCommit: nu, NextRecoveryCommit: nr, Patches: patches, From: p.from, Until: p.until, CorruptSig: p.corruptSig, SignedSuffix: p.signedSuffix}
-		if origin != "" {
+		if origin != nil {
 			raw.AnchorOrigin = origin
 		}
 
@@ -582,7 +591,10 @@ func (w *aWorld) anchor(req []byte, m *refmodel.Op, legit bool, kind string) *aO
 	}
 
 	if m.Origin != "" {
-		a.AnchorOrigin = m.Origin
+		var ov interface{}
+		if json.Unmarshal([]byte(m.Origin), &ov) == nil {
+			a.AnchorOrigin = ov
+		}
 	}
 
 	op := &aOp{M: m, A: a, Legit: legit, Kind: kind}
@@ -826,6 +838,15 @@ func (w *aWorld) anchorHonest(st *refmodel.State, party string) {
 
 	if typ == operation.TypeRecover {
 		p.nextRec = w.newKey("rec")
+	}
+
+	// rarely the controller commits its next update key to the key that is also its current recovery key
+	// (the two chains are independent; only create/recover refuse EQUAL update and recovery commitments)
+	if typ == operation.TypeUpdate && p.delta == refmodel.DeltaOK && T.Draw(15, "honest.sharedkey") == 0 {
+		if rk := w.byCommit[st.RecoveryC]; rk != nil {
+			p.nextUpd = rk
+			w.k.Count("probe:update-key-equals-recovery-key")
+		}
 	}
 
 	if party == "window" || T.Draw(6, "honest.windowed") == 0 {
